@@ -142,6 +142,17 @@ impl PlFold for Flattener {
                             ..pipeline
                         });
                     }
+                    kind @ (TransformKind::Join { .. } | TransformKind::Append(_)) => {
+                        let input = self.fold_expr(*t.input)?;
+
+                        // the joined or appended pipeline has its own order, which is neither
+                        // inherited from this pipeline nor passed on to it
+                        let sort = std::mem::take(&mut self.sort);
+                        let kind = fold_transform_kind(self, kind)?;
+                        self.sort = sort;
+
+                        (input, kind)
+                    }
                     kind => (self.fold_expr(*t.input)?, fold_transform_kind(self, kind)?),
                 };
 
